@@ -315,7 +315,24 @@ impl<'a, 'tcx> Cx<'a, 'tcx> {
                 ("op", J::s(format!("{:?}", uop))),
                 ("a", self.operand(op)),
             ]),
-            Rvalue::Discriminant(p) => J::Obj(vec![("k", J::s("discr")), ("p", self.place(p))]),
+            Rvalue::Discriminant(p) => {
+                let mut o = vec![("k", J::s("discr")), ("p", self.place(p))];
+                let pty = p.ty(&self.body.local_decls, tcx).ty;
+                if let ty::Adt(adt, _) = pty.kind() {
+                    o.push(("adt", J::s(path(tcx, adt.did()))));
+                    if adt.is_enum() {
+                        let mut vs = vec![];
+                        for (vidx, v) in adt.variants().iter_enumerated() {
+                            let d = adt.discriminant_for_variant(tcx, vidx);
+                            vs.push(J::Arr(vec![J::Int(d.val as i128), J::s(v.name.to_string())]));
+                        }
+                        o.push(("variants", J::Arr(vs)));
+                    }
+                } else if pty.is_coroutine() {
+                    o.push(("adt", J::s("<coroutine>")));
+                }
+                J::Obj(o)
+            }
             Rvalue::Aggregate(kind, ops) => {
                 let mut o: Vec<(&'static str, J)> = vec![("k", J::s("agg"))];
                 match &**kind {
